@@ -165,7 +165,13 @@ class LRUTrieNode(object):
                 chunks = []
 
                 while True:
-                    data = struct.unpack(LRU_TRIE_NODE_FORMAT, self.storage.read())
+                    tail_data = self.storage.read()
+
+                    # The tail may be missing if its write was interrupted
+                    if tail_data is None:
+                        break
+
+                    data = struct.unpack(LRU_TRIE_NODE_FORMAT, tail_data)
                     chars = data[LRU_TRIE_NODE_STEM]
 
                     chunks.append(chars)
